@@ -22,7 +22,7 @@ from ..common import Report, stream, digest, order_to_decisions, big
 from ..isolation import pristine_state
 from ..engine import Engine, Monitor, Scripted
 from ..ops import canon_fd, canon_rt, canon_vd
-from ..terms import World, snap, diff_path
+from ..terms import World, snap
 
 PID = "C16"
 
